@@ -201,26 +201,35 @@ def run(F, rep, tier, allfacts):
         and cfg.must_pass([tp[0][0]], 0, oks) and cfg.must_pass([vp[0][0]], 0, oks)
     rep.check(okc, "COV-receipts", "push:list-and-tree-same-receipt", where,
               "push must add receipt.to_bytes() to the tree and the receipt to the list on every Ok path; tree=%s list=%s" % (tp, vp))
-    lim = {}
-    for g in guards(pf):
-        if g["op"] in ("Eq", "Ne") and g["a_desc"] == "call:len(arg:self.receipts)":
-            m = re.match(r"^(?:const:.*ReceiptsCtx::MAX_RECEIPTS|Sub(?:WithOverflow|Unchecked)?\(const:.*ReceiptsCtx::MAX_RECEIPTS,const:(\d)\))$", g["b_desc"])
-            if m:
-                lim[int(m.group(1) or 0)] = g
     maxr = F.const("fuel_vm::interpreter::receipts::ReceiptsCtx::MAX_RECEIPTS")
     full = agg_blocks(pf, r"BugVariant$", "ReceiptsCtxFull")
     tmr = agg_blocks(pf, r"PanicReason$", "TooManyReceipts")
     appends = [x[0] for x in tp] + [x[0] for x in vp]
-    okl = maxr == 65535 and set(lim) == {0, 1, 2} and bool(full) and bool(tmr) and bool(appends) and \
-        all(cfg.dominates(g["bb"], a) for g in lim.values() for a in appends)
-    # on the `len == MAX` side nothing is appended
+    rnames = {k: v["name"] for k, v in enumerate(F.adt("fuel_tx::receipt::Receipt")["variants"])}
+    rdisc = {v: k for k, v in rnames.items()}
+
+    def push_case(length, variant):
+        """case analysis (fvlib.cases): blocks of push() reachable when receipts.len() == length and the receipt is `variant`"""
+        def oracle(kind, desc):
+            if kind == "call" and re.match(r"^call:len\(arg:self\.receipts\)$", desc):
+                return length
+            if kind == "disc" and re.match(r"^arg:receipt$", desc):
+                return rdisc[variant]
+            if kind == "const" and desc.endswith("MAX_RECEIPTS"):
+                return maxr
+            return None
+        return cases.explore(pf, oracle)
+    okl = maxr == 65535 and bool(full) and bool(tmr) and bool(appends)
     if okl:
-        g0 = lim[0]
-        eq_side = g0["t"] if g0["op"] == "Eq" else g0["f"]
-        okl = not any(a in cfg.reachable_incl(eq_side) for a in appends) and full[0] in cfg.reachable_incl(eq_side)
+        other = next(v for v in rnames.values() if v not in ("ScriptResult", "Panic"))
+        r_full, r_last, r_last_other, r_free = push_case(maxr, "ScriptResult"), push_case(maxr - 1, "ScriptResult"), push_case(maxr - 1, other), push_case(maxr - 3, other)
+        okl = None not in (r_full, r_last, r_last_other, r_free) and \
+            not any(a_ in r_full for a_ in appends) and full[0] in r_full and \
+            all(a_ in r_last for a_ in appends) and all(a_ in r_free for a_ in appends) and \
+            not any(a_ in r_last_other for a_ in appends) and tmr[0] in r_last_other
     rep.check(okl, "COV-receipts", "push:limit-tests-before-append", where,
               "the full test (len == MAX_RECEIPTS = 65535) and both reserved-slot tests (len == MAX-1, len == MAX-2) must dominate the tree update and the list "
-              "append (a rejected receipt must leave both untouched); guards found for offsets %s" % sorted(lim))
+              "append (a rejected receipt must leave both untouched); case analysis over len in {MAX, MAX-1, MAX-3} gave the wrong reachability of the appends")
     reserved_slot_variants(F, rep, "COV-receipts")
     fe = FieldEffects(cg, r"^fuel_vm::interpreter::receipts::ReceiptsCtx$", r"fuel_vm::interpreter::receipts::ReceiptsCtx")
     allowed = {
